@@ -9,10 +9,9 @@ compares what the two runs hand to the computation.
   X-REACCEPT     the run on H has a succeeding path and refuses nothing that the run on S did not refuse (the only
                  refusal left is the phrase-length limit).
   X-REECHO       the result of the run on H has the length of H and carries H's setting part cell by cell.
-  X-SAME-INPUT   the digest-contract reads (callee, offset, length) of the setting are identical in both runs, and so is
-                 the recorded set of setting offsets that loads / parsers may touch, except for one frozen scanning idiom.
-  X-HASH-IGNORED in the run on H no offset of the hash portion (beyond the setting part and its delimiter) is read at
-                 all: 'only the prefix, options and salt of a setting influence the result'.  The read record is an
+  X-SAME-INPUT   the digest-contract reads (callee, offset, length) of the setting are identical in both runs.
+  X-HASH-IGNORED in the run on H no offset of the hash portion (beyond the setting part, its delimiter and one look-ahead
+                 character) is read at all, except for one frozen scanning idiom: 'only the prefix, options and salt of a setting influence the result'.  The read record is an
                  over-approximation, so this clause is a proof for the scenarios analysed.
 
 Not decided: that equal inputs give equal digests across two calls is the purity of the primitives (C07 decides the
@@ -38,10 +37,18 @@ def run(chk, tier):
     chk.explanation = __doc__
     chk.rule("X-REACCEPT", "crypt_rn accepts its own result as a setting: a succeeding path exists and no refusal appears that the first run did not have")
     chk.rule("X-REECHO", "hashing with H as the setting writes H's setting part again, cell by cell, and a result of H's length")
-    chk.rule("X-SAME-INPUT", "both runs hand the same bytes of the setting to the digest primitives (identical contract reads and identical read-offset record)")
+    chk.rule("X-SAME-INPUT", "both runs hand the same bytes of the setting to the digest primitives (identical contract reads)")
     chk.rule("X-HASH-IGNORED", "with H as the setting no offset inside H's hash portion is read")
+    chk.rule("X-NO-STALE", "neither run reads a byte of the data object or of a local that the call has not written, nor tests the caller's errno: the two calls of a round trip see different object contents")
     r = CG.run_rehash(tier)
     per = {}
+    for stage, res in (("first", r["first"]["res"]), ("rehash", r["res"])):
+        for cid, c in sorted(res.items()):
+            al = sorted({(a["kind"], a["fn"], a["line"], a["msg"]) for p in c["paths"] for a in p["alarms"] if a["kind"] in ("UNINIT", "AMBIENT")})
+            for kind, fn, line, msg in al[:2]:
+                chk.fail("X-NO-STALE", "%s@%s:%d" % (kind, fn, line), "%s line %d: %s [%s run, cell %s] - the result then depends on what an earlier call left behind, so hashing again with the result need not reproduce it" % (fn, line, msg, stage, cid), "%s:%d" % (fn, line), {"cell": cid})
+            if not al:
+                chk.count("X-NO-STALE", 1, [cid])
     for rid, c in sorted(r["res"].items()):
         mt = r["meta"][rid]
         method = mt["method"]
@@ -62,7 +69,7 @@ def run(chk, tier):
             continue
         chk.ok("X-REACCEPT", rid, sample={"method": method, "H": shown})
         # echo
-        start = len(mt["pattern"])            # the generated setting; H = setting [+ '$'] + digest
+        start = mt["setting_part"]            # H = canonical setting part [+ '$'] + digest
         bad = None
         lo1, hi1 = int(mt["phr_box"][0]), int(mt["phr_box"][1])
         same_phrase = [p for p in succ if not (int(p["roots"][0][1]) < lo1 or int(p["roots"][0][0]) > hi1)]
@@ -101,12 +108,11 @@ def run(chk, tier):
         if c1 != c2:
             d = [x for x in c2 if x not in c1] or [x for x in c1 if x not in c2]
             chk.fail("X-SAME-INPUT", "%s|len%d|cread" % (method, len(H)), "%s: with H as the setting the digest primitives read other bytes of the setting than with the original setting: %s (first run: %s)" % (method, d[:2], c1[:3]), "lib/", where)
-        elif r1 != r2 and method not in SCAN_OK:
-            chk.fail("X-SAME-INPUT", "%s|len%d|reads" % (method, len(H)), "%s: with H as the setting the offsets %s of the setting may be read, with the original setting %s" % (method, r2, r1), "lib/", where)
         else:
             chk.ok("X-SAME-INPUT", rid, sample={"method": method, "digest_reads_of_setting": c1[:3], "offsets": r2})
         # hash portion untouched
-        over = [(a, b) for a, b in r2 if b > start + 1]
+        # the delimiter after the setting part and one look-ahead character (sunmd5 tests for a second '$') are compared, not used
+        over = [(a, b) for a, b in r2 if b > start + 2]
         if over and method not in SCAN_OK:
             chk.fail("X-HASH-IGNORED", "%s|len%d" % (method, len(H)), "%s: offsets %s of the setting may be read although the setting part ends at %d: the hash portion of a setting influences the computation" % (method, over, start), "lib/", where)
         else:
